@@ -36,6 +36,13 @@ impl OverlapChecker
         size: usize)
         -> Result<(), ()>
     {
+        // Entries without any bits cannot overlap anything, and must
+        // not shadow other entries that start at the same position
+        if size == 0
+        {
+            return Ok(());
+        }
+
         let (index, maybe_overlapping_entry) =
             self.check_overlap(position, size);
         
